@@ -84,7 +84,7 @@ func Monitors(c *Case) []vh.Violation {
 		v = append(v, vh.Violation{Kind: kind, Detail: detail, Sig: sig})
 	}
 	fl := flatten(c)
-	closed, stuck := false, c.Stuck != ""
+	closed, stuck := false, c.Stuck != "" || c.Truncated
 	var regs []int
 	for _, o := range fl {
 		if o.K == "END" {
@@ -253,11 +253,43 @@ func Monitors(c *Case) []vh.Violation {
 			aliveSince[o.A] = -1
 		}
 	}
+	// cause classification for the two standing findings (see known_findings.json): a panic inside a lifecycle
+	// handler of an actor that is not alive, and a re-spawn of an address before the parent has processed the
+	// previous holder's termination notice
+	lifecyclePanic := false
+	for _, st := range c.Steps {
+		trig := ""
+		for _, o := range st.O {
+			if o.K == "H" {
+				trig = o.Trig
+			}
+			if o.K == "F" && o.Note == "panic" && (trig == "T" || trig == "TS" || trig == "TO" || trig == "RG") {
+				lifecyclePanic = true
+			}
+		}
+	}
+	spawns := map[int]int{}
+	for _, o := range fl {
+		if o.K == "SP" {
+			spawns[o.Who]++
+		}
+	}
 	if !stuck && !closed {
-		add("C05:shutdown-incomplete", "no step is enabled any more but the system has not closed (Shutdown would hang)", nil)
+		cause := "other"
+		if lifecyclePanic {
+			cause = "lifecycle-handler-panic"
+		}
+		add("C05:shutdown-incomplete", "no step is enabled any more but the system has not closed (Shutdown would hang); cause: "+cause,
+			map[string]string{"cause": cause})
 	}
 	if closed && len(regs) > 0 {
-		add("C05:registered-after-shutdown", fmt.Sprintf("actors still registered after shutdown: %v", regs), nil)
+		resp := "false"
+		for _, t := range regs {
+			if spawns[t] > 1 {
+				resp = "true"
+			}
+		}
+		add("C05:registered-after-shutdown", fmt.Sprintf("actors still registered after shutdown: %v", regs), map[string]string{"respawned": resp})
 	}
 	// ---------------- C06: no spurious notification; at most one per watch / parenthood
 	watched := map[pair]int{}
